@@ -204,6 +204,16 @@ def build_job(r, ext):
     fail_at = r["fail_at"] if r["fail_at"] is not None and r["fail_at"] < ncmd else None
     rets = [f"ret{k}.dat" for k in range(len(r["rets"]))]
     commands = []
+    # the job OVERRIDES PATH, and its programs are named without a directory: the program found through the job's PATH runs, although the
+    # runner's own (inherited) PATH knows a program of the same name
+    path_tool = bool(r.get("path_tool")) and r["env"] is not None
+    if path_tool:
+        for which in ("sysbin", "custombin"):
+            os.makedirs(os.path.join(ext, which), exist_ok=True)
+            tp = os.path.join(ext, which, "vfsh")
+            with open(tp, "w") as fh:
+                fh.write(f"#!/bin/sh\necho {which} >> {_sh_quote(ext + '/tool.log')}\nexec sh \"$@\"\n")
+            os.chmod(tp, 0o755)
     for i, c in enumerate(r["cmds"]):
         parts = [
             f"echo CMD{i} >> {_sh_quote(ext + '/marker.log')}",
@@ -229,8 +239,10 @@ def build_job(r, ext):
             # the failure of this command is that its program cannot be started at all
             commands.append(("/nonexistent/vf-missing-program --flag", f"c{i}" if c["named"] else None))
         else:
-            commands.append((f"sh -c {_sh_quote(script)}", f"c{i}" if c["named"] else None))
+            commands.append((f"{'vfsh' if path_tool else 'sh'} -c {_sh_quote(script)}", f"c{i}" if c["named"] else None))
     envars = {"VF_A": r["env"][0], "VF_B": r["env"][1]} if r["env"] is not None else None
+    if path_tool:
+        envars["PATH"] = os.path.join(ext, "custombin") + os.pathsep + os.environ.get("PATH", "")
     inp = JobInput(jid=r["jid"], commands=commands, files=files or None, return_files=tuple(rets), envars=envars)
     return inp, dict(files=files, fail_at=fail_at, rets=rets, ncmd=ncmd, envars=envars)
 
@@ -278,8 +290,10 @@ def check_exec(r) -> list[Fail]:
     ext = os.path.join(d, "ext")
     os.makedirs(ext)
     fails: list[Fail] = []
-    old_env = {k: os.environ.get(k) for k in ("VF_A", "VF_B", "VF_C")}
+    old_env = {k: os.environ.get(k) for k in ("VF_A", "VF_B", "VF_C", "PATH")}
     os.environ["VF_A"], os.environ["VF_B"], os.environ["VF_C"] = "parentA", "parentB", "inherited, never overridden"
+    if r.get("path_tool") and r["env"] is not None:
+        os.environ["PATH"] = os.path.join(ext, "sysbin") + os.pathsep + os.environ.get("PATH", "")
     try:
         inp, exp = build_job(r, ext)
         status, outf, scratch = run_job(inp, d, r["real"], rel=bool(r.get("rel")))
@@ -323,6 +337,10 @@ def check_exec(r) -> list[Fail]:
                 fails.append(Fail("environment-not-as-requested", f"{via}: command {i} saw {envv!r}, expected {want_env!r}"))
         if len(cwds) > 1:
             fails.append(Fail("commands-ran-in-different-directories", f"{via}: {cwds}"))
+        if r.get("path_tool") and r["env"] is not None:
+            tl = open(os.path.join(ext, "tool.log")).read().split() if os.path.exists(os.path.join(ext, "tool.log")) else []
+            if any(t != "custombin" for t in tl) or len(tl) != len(ran):
+                fails.append(Fail("program-not-the-one-on-the-jobs-PATH", f"{via}: the job puts its own directory first on PATH; programs run came from {tl}"))
         # ---- the report
         if noexe:
             # only what the statement says about failures: non-zero exit, nothing after the failure, no residue
@@ -387,7 +405,7 @@ def strat_exec(tier):
         "files": st.lists(st.tuples(st.sampled_from(["text", "bin"]), st.integers(0, 400)).map(list), max_size=3),
         "rets": st.lists(st.tuples(st.integers(0, 3), st.booleans()).map(list), max_size=3),
         "env": st.one_of(st.none(), st.tuples(st.sampled_from(["jobA", "x y", ""]), st.sampled_from(["jobB", "é"])).map(list)),
-        "real": st.just(False) if tier == "quick" else st.just(True), "rel": st.booleans(),
+        "real": st.just(False) if tier == "quick" else st.just(True), "rel": st.booleans(), "path_tool": st.sampled_from([False, False, True]),
     })
 
 
@@ -397,7 +415,7 @@ def enum_exec_real(tier, shard, nshards):
     cases = []
     for fa in (None, 0, 1, 2):
         for rets in ([[2, False]], [[0, False], [2, True]], []):
-            cases.append(dict(base, cmds=cmds, fail_at=fa, rets=rets, rel=bool(len(cases) % 2)))
+            cases.append(dict(base, cmds=cmds, fail_at=fa, rets=rets, rel=bool(len(cases) % 2), path_tool=bool(len(cases) % 3 == 1)))
     for i, c in enumerate(cases):
         if i % nshards == shard:
             yield c
@@ -410,6 +428,6 @@ LEGS = [
     Leg("exec_real", check_exec, classify_exec, enumerate=enum_exec_real, exhaustive=True, shards={"quick": 12, "thorough": 12},
         rule="12 fixed jobs (3 commands; first failure at none/0/1/2 x return-file plans) through the real _molli_run executable"),
     Leg("exec", check_exec, classify_exec, strategy=strat_exec, n={"quick": 400, "thorough": 1500}, shards={"quick": 16, "thorough": 16},
-        rule="generated jobs: 1-4 sh commands (named / unnamed, stdout / stderr text), first failing command at every position or none, 0-3 text / binary input files, env override or inherited, 0-3 requested files each created at some command or missing, job / output / scratch paths absolute or relative to the working directory; "
+        rule="generated jobs: 1-4 sh commands (named / unnamed, stdout / stderr text), first failing command at every position or none, 0-3 text / binary input files, env override (optionally of PATH itself, with programs named without a directory) or inherited, 0-3 requested files each created at some command or missing, job / output / scratch paths absolute or relative to the working directory; "
              "run_local() in a forked child (quick) / real _molli_run (thorough); non-trivial = failure not at command 0 of >=2, or a missing return file, or a binary file"),
 ]
